@@ -70,6 +70,12 @@ func c06One(env *Env, m *wvlib.Model, c *C06Case) {
 		return
 	}
 	zp := base + "/build.zip"
+	if c.Seed%3 == 0 {
+		// configuration: the heal spec is "archive,<path>" and the path itself may contain commas
+		os.MkdirAll(base+"/releases/v1.0,final, really", 0o755)
+		zp = base + "/releases/v1.0,final, really/build,1.zip"
+		env.R.Count("archive-path-with-commas", 1)
+	}
 	os.WriteFile(zp, zbuf.Bytes(), 0o644)
 	dd := base + "/disk"
 	var dmg *wvlib.Build
